@@ -21,7 +21,7 @@ theorem bg_over_white (E : PEnv) (bg : PyVal α) :
        | .ok rgb => ColorState.valid rgb
        | .error .valueError => .invalid
        | .error .typeError => .invalid
-       | .error e => .raised e) := by
+       | .error .overflowError => .invalid) := by
   unfold Color.new
   simp only
   split <;> simp_all
